@@ -104,7 +104,7 @@ func c12exec(line string) (string, []string, string, string) {
 		if method == "GET" {
 			bodyStr = hx(body)
 			if strings.HasSuffix(path, ".json") && ct == "application/json" {
-				bodyStr = tilejsonProjection(body, meta, &viol)
+				bodyStr = tilejsonProjection(body, meta, &viol, public, strings.TrimSuffix(strings.TrimPrefix(path, "/"), ".json"), h)
 			}
 			if strings.HasSuffix(path, "/metadata") && ct == "application/json" && !bytes.Equal(body, meta) {
 				viol = append(viol, fmt.Sprintf("the metadata endpoint does not return the archive's JSON metadata unchanged: got %s, stored %s", trunc(string(body)), trunc(string(meta))))
@@ -138,7 +138,7 @@ func c12exec(line string) (string, []string, string, string) {
 	return res, viol, et, string(body)
 }
 
-func tilejsonProjection(body, meta []byte, viol *[]string) string {
+func tilejsonProjection(body, meta []byte, viol *[]string, public, name string, h Hdr) string {
 	var tj map[string]interface{}
 	if err := json.Unmarshal(body, &tj); err != nil {
 		*viol = append(*viol, "TileJSON is not valid JSON")
@@ -170,6 +170,22 @@ func tilejsonProjection(body, meta []byte, viol *[]string) string {
 		if has && (!hasGot || !bytes.Equal(wj, gj)) {
 			*viol = append(*viol, fmt.Sprintf("TileJSON field %q is %s, metadata has %s", k, gj, wj))
 		}
+	}
+	// the property's clauses on the header-derived fields, independently of the model: tiles template = public URL / archive name /
+	// {z}/{x}/{y}.<tile-type extension>; bounds, center and zooms are the header's
+	if ext, known := extOf[h.TileType]; known {
+		if want := public + "/" + name + "/{z}/{x}/{y}." + ext; tmpl != want {
+			*viol = append(*viol, fmt.Sprintf("TileJSON tiles template is %q, the public URL, archive name and tile type give %q", tmpl, want))
+		}
+	}
+	if int64(num(tj["minzoom"])) != int64(h.MinZoom) || int64(num(tj["maxzoom"])) != int64(h.MaxZoom) {
+		*viol = append(*viol, fmt.Sprintf("TileJSON zooms %v..%v, header has %d..%d", tj["minzoom"], tj["maxzoom"], h.MinZoom, h.MaxZoom))
+	}
+	if e7(b[0]) != int64(h.MinLon) || e7(b[1]) != int64(h.MinLat) || e7(b[2]) != int64(h.MaxLon) || e7(b[3]) != int64(h.MaxLat) {
+		*viol = append(*viol, fmt.Sprintf("TileJSON bounds %v differ from the header's (E7) %d %d %d %d", b, h.MinLon, h.MinLat, h.MaxLon, h.MaxLat))
+	}
+	if e7(c[0]) != int64(h.CenterLon) || e7(c[1]) != int64(h.CenterLat) || int64(num(c[2])) != int64(h.CenterZoom) {
+		*viol = append(*viol, fmt.Sprintf("TileJSON center %v differs from the header's (E7) %d %d zoom %d", c, h.CenterLon, h.CenterLat, h.CenterZoom))
 	}
 	if tj["tilejson"] != "3.0.0" || tj["scheme"] != "xyz" {
 		*viol = append(*viol, "TileJSON version/scheme fields wrong")
